@@ -23,22 +23,43 @@ def exact(tok):
 # ------------------------------------------------------------------------------------------------
 # token generators
 # ------------------------------------------------------------------------------------------------
+# boundary-value profile of the token generators (set by the harness around a group of cases; generation is sequential):
+#   p    probability that a DATA token is a boundary value (exact zero, negative zero, smallest / largest printable magnitude)
+#   wide probability that the exponent of a token is drawn from the whole printable range -99..+99 instead of the physical one
+PROFILE = {"p": 0.0, "wide": 0.0}
+
+
+def _exp(rng, lo_exp, hi_exp):
+    if PROFILE["wide"] and rng.random() < PROFILE["wide"]:
+        return rng.randint(-99, 99)
+    return rng.randint(lo_exp, hi_exp)
+
+
+def _fmt_e(m, digits, e, expchar):
+    scale = 10 ** digits
+    return "%d.%0*d%s%s%02d" % (m // scale, digits, m % scale, expchar, "+" if e >= 0 else "-", abs(e))
+
+
 def tok_d93(rng, lo_exp, hi_exp, expchar="D"):
     """1PD9.3 : d.dddD+ee (9 characters)"""
-    m = rng.randint(1000, 9999)
-    e = rng.randint(lo_exp, hi_exp)
-    return "%d.%03d%s%s%02d" % (m // 1000, m % 1000, expchar, "+" if e >= 0 else "-", abs(e))
+    if PROFILE["p"] and rng.random() < PROFILE["p"]:
+        return rng.choice(["0.000%s+00", "1.000%s-99", "9.999%s+99", "1.000%s+00", "0.000%s-00"]) % expchar
+    return _fmt_e(rng.randint(1000, 9999), 3, _exp(rng, lo_exp, hi_exp), expchar)
 
 
-def tok_e82(rng, lo_exp, hi_exp, expchar="E"):
-    """1PE8.2 : d.ddE+ee (8 characters)"""
-    m = rng.randint(100, 999)
-    e = rng.randint(lo_exp, hi_exp)
-    return "%d.%02d%s%s%02d" % (m // 100, m % 100, expchar, "+" if e >= 0 else "-", abs(e))
+def tok_e82(rng, lo_exp, hi_exp, expchar="E", neg_ok=False):
+    """1PE8.2 : d.ddE+ee (8 characters); neg_ok: the field is 9 columns wide, a sign fits"""
+    if PROFILE["p"] and rng.random() < PROFILE["p"]:
+        edge = ["0.00%s+00", "1.00%s-99", "9.99%s+99", "1.00%s+00"] + (["-1.00%s-99", "-9.99%s+99", "-0.00%s+00"] if neg_ok else [])
+        return rng.choice(edge) % expchar
+    t = _fmt_e(rng.randint(100, 999), 2, _exp(rng, lo_exp, hi_exp), expchar)
+    return ("-" + t) if (neg_ok and PROFILE["p"] and rng.random() < PROFILE["p"]) else t
 
 
-def tok_f105(rng, lo, hi):
-    """F10.5 without the leading blanks"""
+def tok_f105(rng, lo, hi, edge=True):
+    """F10.5 without the leading blanks (|value| < 100 so that a blank always separates two fields)"""
+    if edge and PROFILE["p"] and rng.random() < PROFILE["p"]:
+        return rng.choice(["0.00000", "-0.00000", "99.99999", "-99.99999", "0.00001", "-0.00001", "1.00000"])
     v = rng.randint(int(lo * 100000), int(hi * 100000))
     s = "%d.%05d" % (abs(v) // 100000, abs(v) % 100000)
     return ("-" if v < 0 else "") + s
@@ -187,7 +208,7 @@ def gen_adf12(rng, nblocks=None, distinct=True, small=False):
              "densi": increasing(rng, nd, g(11, 15)), "zeff": increasing(rng, nz, g(0, 0)),
              "bmag": increasing(rng, nm, g(0, 0))}
         for q, src in (("qener", "ener"), ("qtiev", "tiev"), ("qdensi", "densi"), ("qzeff", "zeff"), ("qbmag", "bmag")):
-            b[q] = [tok_e82(rng, -10, -7, expchar) for _ in b[src]]
+            b[q] = [tok_e82(rng, -10, -7, expchar, neg_ok=True) for _ in b[src]]
         blocks.append(b)
     return blocks
 
@@ -257,9 +278,9 @@ def gen_adf11(rng, nd=None, nt=None, resolved=None, element=None, full=False, me
         resolved = True
     if resolved is None:
         resolved = rng.random() < 0.35
-    dens = increasing(rng, nd, lambda: tok_f105(rng, 7.0, 15.5))
+    dens = increasing(rng, nd, lambda: tok_f105(rng, 7.0, 15.5, edge=False))
     t_lo = 0.0 if (safe and not resolved and nd <= 8) else -0.7
-    temps = increasing(rng, nt, lambda: tok_f105(rng, t_lo, 4.2))
+    temps = increasing(rng, nt, lambda: tok_f105(rng, t_lo, 4.2, edge=False))
     blocks = []
     nstages = (len(meta) - 1) if meta is not None else (z if full else rng.randint(1, z))
     z1s = list(range(1, nstages + 1))
@@ -339,7 +360,7 @@ def write_adf15(t):
     return "".join(L)
 
 
-def gen_adf15(rng, fmt, nblocks=None, nd=None, nt=None, isel_base=0, ncfg=None):
+def gen_adf15(rng, fmt, nblocks=None, nd=None, nt=None, isel_base=0, ncfg=None, permute_index=False, duplicate=False):
     nblocks = nblocks or rng.choice([1, 2, 3, 4, 6])
     types = ["EXCIT", "RECOM", "CHEXC"]
     blocks, index = [], []
@@ -350,7 +371,7 @@ def gen_adf15(rng, fmt, nblocks=None, nd=None, nt=None, isel_base=0, ncfg=None):
         for cid in range(1, ncfg + 1):
             while True:
                 shells = ["1s2"] + ["%d%s%d" % (rng.randint(2, 4), rng.choice("spdf"), rng.randint(1, 6)) for _ in range(rng.randint(1, 2))]
-                s, l = rng.randint(1, 4), rng.randint(0, 4)
+                s, l = rng.randint(1, 4), rng.choice([0, 1, 2, 3, 4, 4, 7, 12, 13])
                 j = "%d.%d" % (rng.randint(0, 4), rng.choice([0, 5]))
                 key = (" ".join(shells), s, l, j)
                 if key not in seen:
@@ -387,6 +408,15 @@ def gen_adf15(rng, fmt, nblocks=None, nd=None, nt=None, isel_base=0, ncfg=None):
             e.update({"lu": rng.randint(0, 3), "ll": rng.randint(0, 3), "ju": "%d.5" % rng.randint(0, 3), "jl": "%d.5" % rng.randint(0, 3)})
         index.append(e)
     index.sort(key=lambda e: e["isel"])
+    if duplicate and len(blocks) >= 2:
+        # the same transition (and type) listed twice with two ISELs: a table keyed by transition holds the one listed last
+        j, k = rng.sample(range(len(index)), 2)
+        for f in ("type", "upper", "lower"):
+            index[k][f] = index[j][f]
+        by_isel = {b["isel"]: b for b in blocks}
+        by_isel[index[k]["isel"]]["type"] = index[k]["type"]
+    if permute_index:
+        rng.shuffle(index)                     # the comment index need not be sorted by ISEL
     return {"title": "SYNTHETIC PHOTON EMISSIVITY COEFFICIENTS", "blocks": blocks, "index": index, "fmt": fmt,
             "configs": configs, "cfg_by_id": cfg_by_id, "wl_unit_space": rng.random() < 0.7}
 
